@@ -9,6 +9,7 @@ import xarray as xr
 
 from glotaran.model.item import ItemIssue
 from glotaran.model.item import ModelItem
+from glotaran.model.item import ModelItemIssue
 from glotaran.model.item import ModelItemType
 from glotaran.model.item import ParameterType
 from glotaran.model.item import attribute
@@ -179,11 +180,37 @@ def validate_global_megacomplexes(
     return get_megacomplex_issues(value, model, False)
 
 
+def validate_group(
+    value: str,
+    dataset_model: DatasetModel,
+    model: Model,
+    parameters: Parameters | None,
+) -> list[ItemIssue]:
+    """Get issues for the dataset group of a dataset model.
+
+    Parameters
+    ----------
+    value: str
+        The label of the dataset group.
+    dataset_model: DatasetModel
+        The dataset model.
+    model: Model
+        The model.
+    parameters: Parameters | None,
+        The parameters.
+
+    Returns
+    -------
+    list[ItemIssue]
+    """
+    return [] if value in model.dataset_groups else [ModelItemIssue("dataset_groups", value)]
+
+
 @item
 class DatasetModel(ModelItem):
     """A model for datasets."""
 
-    group: str = "default"
+    group: str = attribute(default="default", validator=validate_group)  # type:ignore[arg-type]
     force_index_dependent: bool = False
     megacomplex: list[ModelItemType[Megacomplex]] = attribute(
         validator=validate_megacomplexes  # type:ignore[arg-type]
